@@ -796,8 +796,8 @@ func generate(r *hx.Rng) []*kase {
 
 	// two real transports over loopback HTTP
 	for i := 0; i < *nNet; i++ {
-		local, remote, phases, db := genNet(r)
-		add("T", "v2", local, remote, fmtConns(phases), db)
+		codec, local, remote, phases, db := genNet(r)
+		add("T", codec, local, remote, fmtConns(phases), db)
 	}
 
 	// the pipeline / snapshot handlers on bodies that end early
